@@ -309,9 +309,12 @@ def prepare(hyps: List[z3.BoolRef], goal: z3.BoolRef, extra_terms=()):
         ex_ground, ex_q = [], []
         for x in extra:
             (ex_q if (z3.is_quantifier(x) and x.is_forall()) else ex_ground).append(x)
-        base = index_terms([g] + ex_ground + ground)
+        base = [(z3.simplify(t), kd) for t, kd in index_terms([g] + ex_ground + ground)]
         have = {(t.get_id(), kd) for t, kd in base}
-        cands = list(base)
+        cands = []
+        for t, kd in base:
+            if not any(t.get_id() == t0.get_id() and kd == k0 for t0, k0 in cands):
+                cands.append((t, kd))
         # skolems that never occur as an index and explicit hint terms are offered to every quantifier
         for t in list(skolems) + list(extra_terms):
             if not any(t.get_id() == i for i, _ in have):
@@ -321,7 +324,11 @@ def prepare(hyps: List[z3.BoolRef], goal: z3.BoolRef, extra_terms=()):
         for q in allq:
             inst += instantiate(q, cands)
         # second round: index terms that appear through the first round of instances
-        more = [c for c in index_terms(inst) if (c[0].get_id(), c[1]) not in have]
+        more = []
+        for t, kd in index_terms(inst):
+            t = z3.simplify(t)
+            if (t.get_id(), kd) not in have and not any(t.get_id() == t0.get_id() and kd == k0 for t0, k0 in more):
+                more.append((t, kd))
         if more and len(more) <= 80:
             cands2 = cands + more
             inst = []
@@ -336,11 +343,13 @@ def skolems_of_sort(sk, sort):
 
 
 def dedupe(ts):
+    """dedupe modulo arithmetic simplification (it + 1 - 1 and it are the same instantiation term)"""
     seen, out = set(), []
     for t in ts:
-        if t.get_id() not in seen:
-            seen.add(t.get_id())
-            out.append(t)
+        t2 = z3.simplify(t) if t.sort() == z3.IntSort() else t
+        if t2.get_id() not in seen:
+            seen.add(t2.get_id())
+            out.append(t2)
     return out
 
 
